@@ -7,6 +7,7 @@ func init() {
 	vpRegister("VPH_C04_setattr_then_use", VPH_C04_setattr_then_use)
 	vpRegister("VPH_C04_new_objects", VPH_C04_new_objects)
 	vpRegister("VPH_C04_mutate_then_observe", VPH_C04_mutate_then_observe)
+	vpRegister("VPH_C04_long_paths", VPH_C04_long_paths)
 }
 
 func vpFtype(kind uint8) uint32 {
@@ -378,4 +379,85 @@ func VPH_C04_mutate_then_observe() {
 			vpAssert(st == NFSERR_NOTDIR, "non-directory-is-not-a-directory-for-lookup")
 		}
 	}
+}
+
+// VPH_C04_long_paths: the same agreement for objects deep in the tree, whose full path is far longer
+// than any single name may be (components of 120, 120 and 64 bytes: paths of 121, 242 and 307 bytes):
+// LOOKUP, GETATTR, ACCESS and READDIRPLUS report the same fileid - the one of the full path - and the
+// backend's type, size and permission bits.
+func VPH_C04_long_paths() {
+	rep := func(c byte, n int) string {
+		b := make([]byte, n)
+		for i := range b {
+			b[i] = c
+		}
+		return string(b)
+	}
+	fs := vpNewFS()
+	p1 := "/" + rep('a', 120)
+	p2 := p1 + "/" + rep('b', 120)
+	fs.addDir(p1)
+	fs.addDir(p2)
+	depth := vpChoose("depth", 1, 3)
+	dir, name := "/", rep('a', 120)
+	switch depth {
+	case 2:
+		dir, name = p1, rep('b', 120)
+	case 3:
+		dir, name = p2, rep('c', 64)
+		f := fs.addFile(p2+"/"+name, 0)
+		f.size = vpI64("size")
+		vpAssume(vpAnd(f.size >= 0, f.size < 1<<40))
+		f.perm = vpU32("perm") & 0777
+	}
+	full := dir + "/" + name
+	if dir == "/" {
+		full = "/" + name
+	}
+	env := vpServer(fs, ExportOptions{})
+	hdir := env.handleFor(dir)
+	var l vpBuf
+	rd := &vpRd{b: vpReplyBytes(env.call(NFSPROC3_LOOKUP, l.fh(hdir).str(name).Bytes()))}
+	vpAssert(rd.u32() == NFS_OK, "long-lookup-ok")
+	h := (&vpRd{b: rd.opaque()}).u64()
+	a, ok := rd.postOp()
+	vpAssert(ok, "long-lookup-attributes-follow")
+	vpAttrAgrees(fs, full, a, "long-lookup")
+	if vpBool("cache-expired") {
+		vpSetClock(1_000_000_000 + 3600*1_000_000_000)
+	}
+	var g vpBuf
+	rg := &vpRd{b: vpReplyBytes(env.call(NFSPROC3_GETATTR, g.fh(h).Bytes()))}
+	vpAssert(rg.u32() == NFS_OK, "long-getattr-ok")
+	vpAttrAgrees(fs, full, rg.fattr(), "long-getattr")
+	var c vpBuf
+	rc := &vpRd{b: vpReplyBytes(env.call(NFSPROC3_ACCESS, c.fh(h).u32(0x3f).Bytes()))}
+	vpAssert(rc.u32() == NFS_OK, "long-access-ok")
+	if ca, follows := rc.postOp(); follows {
+		vpAttrAgrees(fs, full, ca, "long-access")
+	}
+	var p vpBuf
+	rp := &vpRd{b: vpReplyBytes(env.call(NFSPROC3_READDIRPLUS, p.fh(hdir).u64(0).raw(make([]byte, 8)).u32(8192).u32(32768).Bytes()))}
+	vpAssert(rp.u32() == NFS_OK, "long-readdirplus-ok")
+	rp.postOp()
+	rp.u64()
+	for rp.u32() == 1 {
+		fid := rp.u64()
+		nm := string(rp.opaque())
+		rp.u64()
+		ea, follows := rp.postOp()
+		if rp.u32() == 1 {
+			rp.opaque()
+		}
+		if rp.bad {
+			break
+		}
+		if nm == name {
+			vpAssert(fid == vpFnv64a(full), "long-readdirplus-fileid")
+			if follows {
+				vpAttrAgrees(fs, full, ea, "long-readdirplus")
+			}
+		}
+	}
+	vpReach("long-path")
 }
